@@ -493,6 +493,7 @@ def run(ctx):
                                             "argv": args, "input": show(inp), "observed": show(out), "zargs": zs}, found_input=False) else 0
         if reported >= 3:
             break
+    oracle_bad.sort(key=lambda v: len(v.get("input", [])))       # smallest witness of each class first
     seen_cls = {}
     for v in oracle_bad:
         key = (v.get("class"), v.get("law") if v.get("class") == "other" else "")
